@@ -10,7 +10,9 @@ EXPLANATION = (
     "(R3) every listed move is annotated from the position it produces: apply < classification < undo < set_effect, "
     "table mate->Checkmate, check->Check, else None, classified colour = opponent of the mover; (R4) a draw verdict "
     "never pre-empts checkmate/stalemate: every Draw row of game_ending has established that a legal move exists. "
-    "Correctness of the attack map and of the legal move list themselves is NOT decided here (C01, C11).")
+    "(R5) the attack cache is keyed by colour and position (= C02.R1); (R6) the attack map has all four piece-class contributions "
+    "for the queried colour and exact pawn attacks (= C01.R5, C01.R4). Slider / leaper geometry and the legal move list are NOT "
+    "decided here (C11, C01).")
 ASSUMPTIONS = [
     "rustc MIR construction and the chessfacts extractor are faithful",
     "MoveGenerator::generate_moves / get_attack_targets return the legal moves / attacked squares (C01, C02, C11)",
@@ -304,8 +306,28 @@ def r5_attack_cache(ctx):
                    nontrivial='floor' not in s['instance'])
 
 
+def r6_attack_map(ctx):
+    """the attack map every verdict is computed from has all four piece-class contributions, pawn attacks exact (= C01.R5 and the
+    pawn-attack part of C01.R4; the slider / leaper geometry behind it is C11)"""
+    from . import c01
+    sub = type(ctx)(ctx.prop, ctx.tier, ctx.facts, ctx.facts_info, ctx.seed)
+    c01.r5_attack_map(sub)
+    c01.r4_pawn_geometry(sub)
+    n = 0
+    for s in sub.samples:
+        inst = s['instance']
+        if s['rule'].startswith('C01.R5') or 'attack set of a pawn' in inst or s['rule'] in ('C01.R9-slider-blockers',):
+            n += 1
+            ctx.ob('C06.R6-attack-map', s['function'], inst, s['ok'], found=s['found'], expected=s['expected'],
+                   why='check, mate and stalemate verdicts are read off this map: a piece class or direction missing from it (for one colour, on one '
+                       'file) turns a check into "not in check" and a mate into a stalemate',
+                   nontrivial='floor' not in inst)
+    ctx.floor('C06.R6-attack-map', 'attack-map obligations imported', n, 4)
+
+
 def run(ctx):
     r5_attack_cache(ctx)
+    r6_attack_map(ctx)
     r1_in_check(ctx)
     draw_rows, name = r2_tables(ctx)
     r3_annotation(ctx)
